@@ -13,7 +13,12 @@ class ProbeError(Exception):
     pass
 
 
-class _State:
+import threading
+
+
+class _State(threading.local):
+    """decision schedule of the probe run in progress - per thread (a shard may run its workload in several threads)"""
+
     def __init__(self):
         self.depth = 0
         self.schedule = []
